@@ -622,14 +622,14 @@ class TermBuilder:
             for d, gs in zip(defs, extras):
                 g = tm.conj([self._guard_piece(t, p, o) for (t, p, o) in gs])
                 pieces.append((g, self._def_term(name, d)))
-            return PW(pieces)
+            return tm.piecewise(pieces)
         if len(defs) == 2 and len(nonempty) == 1:
             d0 = defs[0] if not extras[0] else defs[1]
             d1 = defs[1] if not extras[0] else defs[0]
             gs = extras[1] if not extras[0] else extras[0]
             if self.cfg.dominates(d0, d1):
                 g = tm.conj([self._guard_piece(t, p, o) for (t, p, o) in gs])
-                return PW([(g, self._def_term(name, d1)), (tm.negate(g), self._def_term(name, d0))])
+                return tm.piecewise([(g, self._def_term(name, d1)), (tm.negate(g), self._def_term(name, d0))])
         return None
 
     def _via_back_edge(self, d: Node, at: Node) -> bool:
@@ -774,7 +774,7 @@ class TermBuilder:
 
     def _t_IfExp(self, e, at):
         c = self.term(e.test, at)
-        return PW([(c, self.term(e.body, at)), (tm.negate(c), self.term(e.orelse, at))])
+        return tm.choose(c, self.term(e.body, at), self.term(e.orelse, at))
 
     def _t_UnaryOp(self, e, at):
         v = self.term(e.operand, at)
